@@ -2,7 +2,7 @@
    followed by Print Assumptions.  [true] selects the model of the repaired code (the code the
    check runs against, fixes/C07-*.patch applied); [false] the code as found. *)
 From Coq Require Import ZArith NArith List Bool Lia.
-From Falcon.C07 Require Import Model Spec ProofsLib ProofsW ProofsA ProofsA2 ProofsA3 ProofsA4.
+From Falcon.C07 Require Import Model Spec ProofsLib ProofsW ProofsA ProofsA2 ProofsA3 ProofsA4 ProofsReq.
 Import ListNotations.
 Open Scope Z_scope.
 
@@ -143,7 +143,26 @@ Theorem C07_asgi_prefix : forall first cl events ops,
 Proof. exact asgi_prefix. Qed.
 Print Assumptions C07_asgi_prefix.
 
-(* tell() is exactly the number of bytes returned (histories without exhaust()) ... *)
+(* POSITION AND END-OF-STREAM INDICATORS, FOR ALL HISTORIES (exhaust() and close() included).
+   What the property demands of them: the stream is a cursor over the declared body.
+   tell() is the cursor: the number of declared-body bytes consumed so far, i.e. returned by
+   a read or explicitly skipped by exhaust() (a successful exhaust() skips everything that was
+   left, [cursor_after]); close() abandons the stream where it is.  eof says "nothing more
+   will be returned": on an open stream it is reported only when the cursor is at the end of the
+   declared body (so everything was returned, or skipped on request), and on any stream --
+   closed ones too -- nothing is returned after it was reported. *)
+
+(* tell() = cursor, for all histories ... *)
+Theorem C07_asgi_tell_cursor : forall first cl events ops,
+  wfb (first_events first ++ events) = true -> (forall n, cl = Some n -> 0 <= n) ->
+  let st0 := a_init true first cl events in
+  disciplined ops st0 = true ->
+  pos (aend (arun true ops st0) st0)
+  = acursor (a_declared first cl events) 0 ops (arun true ops st0).
+Proof. exact asgi_tell_cursor. Qed.
+Print Assumptions C07_asgi_tell_cursor.
+
+(* ... which is exactly the number of bytes returned when exhaust() is not used ... *)
 Theorem C07_asgi_tell_exact : forall first cl events ops,
   wfb (first_events first ++ events) = true -> (forall n, cl = Some n -> 0 <= n) ->
   let st0 := a_init true first cl events in
@@ -152,25 +171,65 @@ Theorem C07_asgi_tell_exact : forall first cl events ops,
 Proof. exact asgi_tell_exact. Qed.
 Print Assumptions C07_asgi_tell_exact.
 
-(* ... and never less (exhaust() adds the bytes it discarded) *)
-Theorem C07_asgi_tell_ge : forall first cl events ops,
+(* ... and always between the bytes returned and the length of the declared body *)
+Theorem C07_asgi_tell_le_declared : forall first cl events ops,
   wfb (first_events first ++ events) = true -> (forall n, cl = Some n -> 0 <= n) ->
   let st0 := a_init true first cl events in
   disciplined ops st0 = true ->
-  len (abytes (arun true ops st0)) <= pos (aend (arun true ops st0) st0).
-Proof. exact asgi_tell_ge. Qed.
-Print Assumptions C07_asgi_tell_ge.
+  len (abytes (arun true ops st0)) <= pos (aend (arun true ops st0) st0)
+                                   <= len (a_declared first cl events).
+Proof. exact asgi_tell_le_declared. Qed.
+Print Assumptions C07_asgi_tell_le_declared.
 
-(* once eof is reported (and nothing was discarded by exhaust()/close()) the whole declared
-   body has been returned *)
+(* eof on an open stream: the cursor is at the end of the declared body, for all histories *)
+Theorem C07_asgi_eof_cursor : forall first cl events ops,
+  wfb (first_events first ++ events) = true -> (forall n, cl = Some n -> 0 <= n) ->
+  let st0 := a_init true first cl events in
+  disciplined ops st0 = true ->
+  a_eof (aend (arun true ops st0) st0) = true -> closed (aend (arun true ops st0) st0) = false ->
+  consumed_run (a_declared first cl events) [] ops (arun true ops st0) = a_declared first cl events /\
+  pos (aend (arun true ops st0) st0) = len (a_declared first cl events).
+Proof. exact asgi_eof_cursor. Qed.
+Print Assumptions C07_asgi_eof_cursor.
+
+(* hence, when nothing was skipped by exhaust(), the whole declared body was returned *)
 Theorem C07_asgi_eof_complete : forall first cl events ops,
   wfb (first_events first ++ events) = true -> (forall n, cl = Some n -> 0 <= n) ->
   let st0 := a_init true first cl events in
-  disciplined ops st0 = true -> forallb keeps_data ops = true ->
-  a_eof (aend (arun true ops st0) st0) = true ->
+  disciplined ops st0 = true -> forallb not_exhaust ops = true ->
+  a_eof (aend (arun true ops st0) st0) = true -> closed (aend (arun true ops st0) st0) = false ->
   abytes (arun true ops st0) = a_declared first cl events.
 Proof. exact asgi_eof_complete. Qed.
 Print Assumptions C07_asgi_eof_complete.
+
+(* after eof was reported -- in ANY state, reachable or not, open, exhausted or closed --
+   nothing is ever returned again and eof stays reported *)
+Theorem C07_asgi_eof_final : forall more_ops st,
+  a_eof st = true ->
+  abytes (arun true more_ops st) = [] /\ a_eof (aend (arun true more_ops st) st) = true.
+Proof. exact eof_stays. Qed.
+Print Assumptions C07_asgi_eof_final.
+
+(* exhaust() on an open stream: cursor to the end, eof reported *)
+Theorem C07_asgi_exhaust_to_end : forall first cl events ops,
+  wfb (first_events first ++ events) = true -> (forall n, cl = Some n -> 0 <= n) ->
+  let st0 := a_init true first cl events in
+  disciplined ops st0 = true ->
+  forall r st', closed (aend (arun true ops st0) st0) = false ->
+    astep true AExhaust (aend (arun true ops st0) st0) = (r, st') ->
+    r = ANone /\ pos st' = len (a_declared first cl events) /\ a_eof st' = true /\ closed st' = false.
+Proof. exact asgi_exhaust_to_end. Qed.
+Print Assumptions C07_asgi_exhaust_to_end.
+
+(* close(): closed and eof reported, tell() unchanged *)
+Theorem C07_asgi_close_semantics : forall first cl events ops,
+  wfb (first_events first ++ events) = true -> (forall n, cl = Some n -> 0 <= n) ->
+  let st0 := a_init true first cl events in
+  disciplined ops st0 = true ->
+  let st := aend (arun true ops st0) st0 in
+  closed (a_close st) = true /\ a_eof (a_close st) = true /\ pos (a_close st) = pos st.
+Proof. exact asgi_close_semantics. Qed.
+Print Assumptions C07_asgi_close_semantics.
 
 (* a disconnect ends the stream: receive() is never awaited again after it returned
    http.disconnect *)
@@ -214,7 +273,7 @@ Print Assumptions C07_asgi_empty_means_eof.
 Theorem C07_a_oracle_sound : forall first cl events ops,
   wfb (first_events first ++ events) = true -> (forall n, cl = Some n -> 0 <= n) ->
   let st0 := a_init true first cl events in
-  a_oracle first cl events (pos st0) (a_observes ops (arun true ops st0)) = [].
+  a_oracle first cl events (pos st0) (a_eof st0) (a_observes ops (arun true ops st0)) = [].
 Proof. exact a_oracle_sound. Qed.
 Print Assumptions C07_a_oracle_sound.
 
@@ -236,6 +295,82 @@ Theorem C07_asgi_sized_le_refuted_before_fix :
 Proof. exact asgi_sized_le_refuted_before_fix. Qed.
 Print Assumptions C07_asgi_sized_le_refuted_before_fix.
 
+(* exhaust() as found (before fixes/C07-asgi-exhaust-position.patch) left tell() behind the
+   end of the declared body although eof was reported, or moved it beyond the declared body *)
+Theorem C07_asgi_exhaust_tell_refuted_before_fix :
+  exists first cl events ops,
+    wfb (first_events first ++ events) = true /\ (forall n, cl = Some n -> 0 <= n) /\
+    let st0 := a_init false first cl events in
+    let tr := arun false ops st0 in
+    a_eof (aend tr st0) = true /\ closed (aend tr st0) = false /\
+    pos (aend tr st0) <> len (a_declared first cl events).
+Proof. exact asgi_exhaust_tell_refuted_before_fix. Qed.
+Print Assumptions C07_asgi_exhaust_tell_refuted_before_fix.
+
+Theorem C07_asgi_exhaust_oversized_refuted_before_fix :
+  exists first cl events ops,
+    wfb (first_events first ++ events) = true /\ (forall n, cl = Some n -> 0 <= n) /\
+    let st0 := a_init false first cl events in
+    let tr := arun false ops st0 in
+    len (a_declared first cl events) < pos (aend tr st0).
+Proof. exact asgi_exhaust_oversized_refuted_before_fix. Qed.
+Print Assumptions C07_asgi_exhaust_oversized_refuted_before_fix.
+
+(* ======================= the request objects =======================
+   falcon.Request: req.stream is env['wsgi.input'] itself; req.bounded_stream is created at most
+   once as BoundedStream(wsgi.input, Content-Length or 0; absent/empty/invalid/negative => 0).
+   falcon.asgi.Request: req.stream creates, at most once, BoundedStream(receive, first_event,
+   content_length); req.bounded_stream is an alias. *)
+
+(* one shared cursor: however the two WSGI accessors are interleaved, what they return, in
+   call order, is exactly what wsgi.input handed out; the bounded accessor never returns
+   more than the effective Content-Length; the wrapper is constructed at most once *)
+Theorem C07_wsgi_accessors_share_cursor : forall c data caps ops,
+  forallb qop_ok ops = true ->
+  let q0 := q_init c (src0 data caps) in
+  let tr := qrun ops q0 in
+  data = qbytes tr ++ s_data (q_src (qend tr q0)) /\
+  s_pos (q_src (qend tr q0)) = len (qbytes tr) /\
+  qbounded_len ops tr <= wsgi_budget c /\
+  0 <= q_made (qend tr q0) <= 1.
+Proof. exact wsgi_accessors_share_cursor. Qed.
+Print Assumptions C07_wsgi_accessors_share_cursor.
+
+(* through req.bounded_stream alone the history is that of BoundedStream(wsgi.input,
+   wsgi_budget c): all C07_wsgi_* theorems apply with cl := wsgi_budget c *)
+Theorem C07_wsgi_bounded_accessor_is_bounded_stream : forall c data caps ops,
+  let q0 := q_init c (src0 data caps) in
+  let st0 := w_init (wsgi_budget c) (src0 data caps) in
+  map fst (qrun (map QBounded ops) q0) = map fst (wrun true ops st0) /\
+  q_src (qend (qrun (map QBounded ops) q0) q0) = w_src (wend (wrun true ops st0) st0).
+Proof. exact wsgi_bounded_accessor_is_bounded_stream. Qed.
+Print Assumptions C07_wsgi_bounded_accessor_is_bounded_stream.
+
+(* ASGI: which accessor is used never matters *)
+Theorem C07_asgi_accessors_alias : forall ops rq,
+  areq_run ops rq = areq_run (map (fun p => (true, snd p)) ops) rq.
+Proof. exact asgi_accessors_alias. Qed.
+Print Assumptions C07_asgi_accessors_alias.
+
+(* ASGI: with a valid or absent Content-Length the accessors expose the one
+   BoundedStream(receive, first_event, content_length), created once: all C07_asgi_* apply *)
+Theorem C07_asgi_request_stream_is_bounded_stream : forall first c cl events ops,
+  content_length c = Some cl ->
+  let rq0 := areq_init first c events in
+  map fst (areq_run ops rq0) = map fst (arun true (map snd ops) (a_init true first cl events)) /\
+  0 <= rq_made (rqend (areq_run ops rq0) rq0) <= 1.
+Proof. exact asgi_request_stream_is_bounded_stream. Qed.
+Print Assumptions C07_asgi_request_stream_is_bounded_stream.
+
+(* ASGI: an invalid Content-Length is reported (HTTPInvalidHeader) by every access *)
+Theorem C07_asgi_invalid_content_length : forall first c events ops,
+  content_length c = None ->
+  let rq0 := areq_init first c events in
+  Forall (fun p => fst p = AErr EInvalidHeader) (areq_run ops rq0) /\
+  rqend (areq_run ops rq0) rq0 = rq0.
+Proof. exact asgi_invalid_content_length. Qed.
+Print Assumptions C07_asgi_invalid_content_length.
+
 (* ---- non-vacuity: concrete non-trivial histories meeting the hypotheses *)
 Example C07_wsgi_example :
   let ops := [WReadline None; WRead (Some 2); WEof; WReadlines None; WEof] in
@@ -252,8 +387,24 @@ Example C07_asgi_example :
   let ops := [ARead (Some 3); ATell; ANext; ANext; AEof] in
   let st0 := a_init true first (Some 5) events in
   wfb (first_events first ++ events) = true /\ disciplined ops st0 = true /\
-  forallb keeps_data ops = true /\
+  forallb not_exhaust ops = true /\
   map fst (arun true ops st0) =
     [ABytes [97; 98; 99]%N; AInt 3; ABytes [100; 101]%N; AStop; ABool true] /\
   abytes (arun true ops st0) = a_declared first (Some 5) events.
+Proof. vm_compute. repeat split; reflexivity. Qed.
+
+Example C07_asgi_exhaust_example :
+  let events := [Req (Some [97; 98; 99; 100]%N) true; Req (Some [101; 102; 103; 104]%N) false] in
+  let ops := [ARead (Some 2); ATell; AExhaust; ATell; AEof; ARead None] in
+  let st0 := a_init true None (Some 6) events in
+  disciplined ops st0 = true /\
+  map fst (arun true ops st0) = [ABytes [97; 98]%N; AInt 2; ANone; AInt 6; ABool true; ABytes []].
+Proof. vm_compute. split; reflexivity. Qed.
+
+Example C07_wsgi_request_example :
+  let ops := [QRawRead (Some 1); QBounded (WRead (Some 2)); QRawReadline None; QBounded (WRead None)] in
+  let q0 := q_init (CValue 4) (src0 b_abcd []) in
+  forallb qop_ok ops = true /\
+  map fst (qrun ops q0) = [RBytes [97]%N; RBytes [98; 10]%N; RBytes [99; 100; 10]%N; RBytes []] /\
+  q_made (qend (qrun ops q0) q0) = 1.
 Proof. vm_compute. repeat split; reflexivity. Qed.
